@@ -168,9 +168,11 @@ func (f *Frame) callByContract(ins ssa.Instruction, fc *FuncContract, callee *ss
 		u.usedExterns[fc.Pkg+"."+fc.Target] = true
 	}
 	params := map[string]CVal{}
+	f.callArgs = map[string]Value{}
 	for i, p := range callee.Params {
 		if i < len(args) {
 			params[p.Name()] = f.cval(args[i], p.Type())
+			f.callArgs[p.Name()] = args[i]
 		}
 	}
 	// externs without body: name parameters from the signature
@@ -186,6 +188,7 @@ func (f *Frame) callByContract(ins ssa.Instruction, fc *FuncContract, callee *ss
 		for i := 0; i < sig.Params().Len(); i++ {
 			if i+off < len(args) {
 				params[sig.Params().At(i).Name()] = f.cval(args[i+off], sig.Params().At(i).Type())
+				f.callArgs[sig.Params().At(i).Name()] = args[i+off]
 			}
 		}
 	}
@@ -281,6 +284,33 @@ func (f *Frame) havocModifies(m string, fc *FuncContract, pkg *types.Package, lo
 				return
 			}
 			f.havocRow(st, sl.Elem(), sBase(v.T))
+			return
+		}
+		if x.Fn == "pointee" && len(x.Args) == 1 {
+			// what an interface-typed argument points to (static type known from the call site)
+			id, ok := x.Args[0].(*EIdent)
+			av, known := f.callArgs[id.Name]
+			if !ok || !known || av.Boxed == nil {
+				f.havocModifies("*", fc, pkg, lookup, st)
+				return
+			}
+			pt, isPtr := av.Boxed.Underlying().(*types.Pointer)
+			if !isPtr {
+				return // a value was boxed: nothing reachable to write
+			}
+			if _, isStruct := pt.Elem().Underlying().(*types.Struct); isStruct {
+				for _, r := range f.structRegions(pt.Elem()) {
+					h := u.heapGet(st.heap, r)
+					es := strings.TrimSuffix(strings.TrimPrefix(u.rsorts[r], "(Array Int "), ")")
+					st.heap[r] = u.freshDef("h", mk(h.Sort, "store", h, av.BoxedRef, u.sc.fresh("hv", es)))
+				}
+				return
+			}
+			region := u.cellRegion(pt.Elem())
+			h := u.heapGet(st.heap, region)
+			nv := u.sc.fresh("hv", u.te.sortOf(pt.Elem()))
+			st.heap[region] = u.freshDef("h", mk(h.Sort, "store", h, av.BoxedRef, nv))
+			u.assume(st.reach, u.wf(nv, pt.Elem(), st.wm))
 			return
 		}
 		if x.Fn == "deref" && len(x.Args) == 1 {
